@@ -12,7 +12,8 @@ def population(rng, quick):
     cplx = []
     for s in structs:
         for _ in range(2):
-            cplx.append([gs.seq_for(rng, s, names=("a", "b"), complementary=rng.random() < 0.5), list(s), rng.randrange(3)])
+            cplx.append([gs.seq_for(rng, s, names=rng.choice([("a", "b"), ("a", "aa", "ab", "b", "B", "a_"), ("d1", "d10", "d2")]),
+                                    complementary=rng.random() < 0.5), list(s), rng.randrange(3)])
     macs = [[rng.sample(cplx, rng.randrange(1, 4)), rng.randrange(2)] for _ in range(60)]
     # macrostates need distinct complexes in ONE class (members are looked up in their own registry)
     macs = [[[[c[0], c[1], 0] for c in cs], k] for cs, k in macs]
